@@ -1,5 +1,6 @@
 import PromModel.Suites.NhcbSuite
 import PromProofs.NhcbGroups
+import PromProofs.NhcbFields
 /-
   C36 — classic histograms convert to custom-bucket histograms without loss.
   Theorems about the transcription of `NHCBParser`/`TempHistogram` in PromModel/Ingest/Nhcb.lean.
@@ -175,6 +176,49 @@ theorem nhcb_count (cfg : Cfg) (es : List Entry) (h : WF cfg es) :
   intro g hg
   obtain ⟨c, _, ho⟩ := (nhcb_groups cfg es h).2.1 g hg
   rw [ho]; rfl
+
+theorem Grp.conv_some {g : Grp} {c : Conv} (h : g.conv = some c) : g.temp.convert = some c ∧ c.valid = true := by
+  unfold Grp.conv at h
+  split at h
+  · split at h
+    · cases h; exact ⟨by assumption, by assumption⟩
+    · cases h
+  · cases h
+
+/-- `nhcb_fields`: on a well-formed stream, the converted histogram of every group `g`
+    * is `nhcb (series text of g.base) g.base g.ts g.st g.exs c`: labels = those of the group's first series
+      with `__name__` := base name and without `le` (`metricBase`), timestamp and start timestamp = those of
+      the first series, exemplars = the exemplars of all its series in order (by construction of `Grp` in
+      `refFresh`/`refSame`);
+    * custom values = the finite upper bounds stored for the group, which are strictly increasing, each of
+      them the `le` of one of the group's `_bucket` series together with that series' cumulative count, and
+      every `_bucket` series' bound is present (up to IEEE `==`);
+    * sum = the `_sum` series' value, counts (`Conv.CountsOf`): bucket counts = adjacent differences of the
+      cumulative counts (incl. the `+Inf`/missing-`+Inf` rule of `effBuckets`), count = `_count` series or
+      the default; for integer histograms `cumulate 0 abs` gives the cumulative counts back;
+    * it passes `Validate`. -/
+theorem nhcb_fields (cfg : Cfg) (es : List Entry) (h : WF cfg es) : ∀ g ∈ groups cfg es, ∃ c,
+    g.out = [.nhcb (metricString g.base) g.base g.ts g.st g.exs c] ∧
+    c.cv = customValues g.temp.buckets ∧
+    c.cv.Pairwise (fun a b => flt a b = true) ∧
+    (∀ b ∈ g.temp.buckets, Upd.bucket b.le b.count ∈ g.upds) ∧
+    (∀ le v, Upd.bucket le v ∈ g.upds → ∃ b ∈ g.temp.buckets, feq b.le le = true) ∧
+    c.sum = g.temp.sum ∧ c.CountsOf g.temp ∧ c.valid = true := by
+  intro g hg
+  obtain ⟨c, hc, ho⟩ := (nhcb_groups cfg es h).2.1 g hg
+  obtain ⟨hcv, hv⟩ := Grp.conv_some hc
+  obtain ⟨he, f1, f2, f3⟩ := g.temp.convert_fields c hcv
+  obtain ⟨m1, m2⟩ := g.temp_buckets he
+  refine ⟨c, ho, f1, ?_, m1, m2, f2, f3, hv⟩
+  rw [f1]
+  exact customValues_sorted _ g.temp_sorted
+
+/-- integer histograms: re-cumulating the bucket counts gives the cumulative counts of the series back -/
+theorem nhcb_fields_int_roundtrip (h : Temp) (count : Int) (sum : Nat) (cv : List Nat) (abs : List Int)
+    (hc : (Conv.int count sum cv abs).CountsOf h) :
+    h.effBuckets.mapM (fun b => asI64? b.count) = some (cumulate 0 abs) := by
+  obtain ⟨ints, h1, h2, _⟩ := hc
+  rw [h2, decumulate_cumulate_id, h1]
 
 /-- `keep_classic_superset`: with keep-classic, on a well-formed stream, (1) the stream is also well-formed
     for the parser without keep-classic and the converted histograms are the same, (2) everything else in
